@@ -299,7 +299,8 @@ Section Targets.
     intros T NZ Z H. unfold hoist_target. rewrite peel_of_inner.
     pose proof (target_clean x T NZ Z _ _ _ _ _ H span acc0 p) as Q.
     destruct (hoist_member c (peel_parens x1) span acc0 p) as [[[t' a'] p']|].
-    - intros X; inversion X; subst. exact Q.
+    - intros X; inversion X; subst.
+      destruct (is_kind KParen x1); [rewrite ns_mk_paren|]; exact Q.
     - intros X; inversion X; subst. exact Q.
   Qed.
 
